@@ -65,7 +65,8 @@ def basicUser (s : String) : Option (Bytes × BHash) :=
     let p' ← unhex p
     if p'.length > 64 then none
     else if k == "plain" then (if p'.all isAlnum then some (u', (k, p')) else none)
-    else if ["sha", "bc", "by", "apr", "md5"].contains k then some (u', (k, p'))
+    else if k == "crypt" then (if p' == strBytes "Password" then some (u', ("plain", p')) else none)
+    else if ["sha", "bc", "by", "bb", "apr", "md5"].contains k then some (u', (k, p'))
     else none
   | _ => none
 
@@ -100,7 +101,13 @@ def basicWhy (tbl : Option (List (Bool × BasicRule BHash))) (auth : Bytes) : St
 def runBasic (f : List String) (impl : String) : Ans :=
   match f with
   | [p, rules, hdr] =>
-    match productFlag p, (splitList rules "/").mapM basicRule, (if hdr == "n" then some [] else unhex hdr) with
+    -- several Authorization lines ("a&b"): Header.Get returns the first
+    let hdrVal : Option Bytes :=
+      if hdr == "n" then some []
+      else match (hdr.splitOn "&").mapM unhex with
+        | some (h :: _) => some h
+        | _ => none
+    match productFlag p, (splitList rules "/").mapM basicRule, hdrVal with
     | some p', some rs, some auth =>
       let tbl := if p' then some rs else none
       let mo := basicHandler b64StdDecode idealVerifyPw tbl auth
@@ -857,6 +864,154 @@ def runReload (f : List String) (impl : String) : Ans :=
         else { a with tags := ["rl", "rl-" ++ kind] ++ a.tags.filter (· == "nt") }
   | _ => bad
 
+/-! ## histories through the rule files and the real reload entry points -/
+
+def restrictedHex : String := "52657374726963746564"
+
+/-- ruleConvert: an empty Realm in the rule file becomes "Restricted" -/
+def defaultRealms (rules : String) : String :=
+  if rules == "_" then rules
+  else "/".intercalate ((rules.splitOn "/").map fun r =>
+    match r.splitOn "," with
+    | [m, realm, x] => ",".intercalate [m, if realm == "-" then restrictedHex else realm, x]
+    | _ => r)
+
+def asciiPrintableB (b : Bytes) : Bool := b.all fun c => 32 ≤ c && c ≤ 126
+
+def userFileOK (u : Bytes) : Bool :=
+  !(u.any fun c => c == 58 || c == 35 || c == 10 || c == 13) &&
+  (u.isEmpty || ((match u.head? with | some c => 32 < c && c < 127 | none => true) &&
+                 (match u.getLast? with | some c => 32 < c && c < 127 | none => true)))
+
+/-- can the rules be written into rule / user / key files and read back unchanged? -/
+def rulesFileOK (kind rules : String) : Bool :=
+  if kind != "ba" && kind != "jw" then true
+  else (splitList rules "/").all fun r =>
+    match r.splitOn "," with
+    | [_, realm, x] =>
+      (match unhex realm with | some b => asciiPrintableB b | none => false) &&
+      (kind != "ba" || (splitList x "+").all fun us =>
+        match us.splitOn ":" with
+        | u :: _ => (match unhex u with | some b => userFileOK b | none => false)
+        | [] => false)
+    | _ => false
+
+def cmdOK (rules : String) : Bool :=
+  (splitList rules "/").all fun r =>
+    match r.splitOn "," with
+    | [_, cmd] => (match unhex cmd with | some b => asciiPrintableB b | none => false)
+    | _ => false
+
+def cmdValid (rules : String) : Bool :=
+  (splitList rules "/").all fun r =>
+    match r.splitOn "," with
+    | [_, cmd] => cmd == "434c4f5345" || cmd == "414c4c4f57"
+    | _ => false
+
+/-- a load step: none = malformed op, some (answer, new conf if accepted) -/
+def histLoad (kind : String) (c : List String) : Option (String × Option (List String)) :=
+  if c == ["X0"] || c == ["X1"] then some ("err", none)
+  else if kind == "ba" || kind == "jw" || kind == "sl" then
+    let req := if kind == "sl" then "-;-;2f;_;_" else "n"
+    let okRules (r : String) : Bool := (runKind kind ["1", r, req] "").model != "bad-op" && rulesFileOK kind r
+    let dr (r : String) : String := if kind == "sl" then r else defaultRealms r
+    match c with
+    | [p, r] => if (p == "0" || p == "1") && okRules r then some ("ok", some [p, dr r]) else none
+    | ["2", r1, r2] => if okRules r1 && okRules r2 then some ("ok", some ["2", dr r1, dr r2]) else none
+    | _ => none
+  else if kind == "br" then
+    match c with
+    | [g, p, gr, pr] =>
+      let a := runKind kind [g, p, gr, pr, "0a000001"] ""
+      if a.model == "bad-op" || !cmdOK gr || !cmdOK pr then none
+      else if a.model == "err:conf" || !cmdValid gr || !cmdValid pr then some ("err", none)
+      else some ("ok", some c)
+    | _ => none
+  else if kind == "bg" then
+    match c with
+    | [ranges] =>
+      let a := runKind kind ["00000000000000000000ffff0a000001", ranges] ""
+      if a.model == "bad-op" then none
+      else if a.model == "err:conf" then some ("err", none)
+      else some ("ok", some c)
+    | _ => none
+  else none
+
+/-- the fields of the normal op that asks request `q` under conf `cur` -/
+def histReqFields (kind : String) (cur : Option (List String)) (q : List String) : Option (List String) :=
+  if kind == "ba" || kind == "jw" || kind == "sl" then
+    match q with
+    | prod :: rest =>
+      if (prod != "0" && prod != "1") || rest.isEmpty then none
+      else
+        let req := ";".intercalate rest
+        let rules : Option String :=
+          match cur with
+          | some [p, r] => if p == prod then some r else none
+          | some ["2", r1, r2] => if prod == "1" then some r1 else some r2
+          | _ => none
+        if (kind == "sl" && rest.length != 5) || (kind != "sl" && rest.length != 1) then none
+        else match rules with
+          | some r => some ["1", r, req]
+          | none => some ["0", "_", req]
+    | [] => none
+  else if kind == "br" then
+    match q, cur with
+    | [cip], some [g, p, gr, pr] => some [g, p, gr, pr, cip]
+    | [cip], none => some ["0", "0", "_", "_", cip]
+    | _, _ => none
+  else if kind == "bg" then
+    match q, cur with
+    | [ip], some [ranges] => some [ip, ranges]
+    | [ip], none => some [ip, "_"]
+    | _, _ => none
+  else none
+
+structure HistAcc where
+  cur : Option (List String) := none
+  models : List String := []
+  verdict : String := "ok"
+  nt : Bool := false
+  bad : Bool := false
+
+def histStep (kind : String) (acc : HistAcc) (step impl : String) : HistAcc :=
+  if acc.bad || step.length < 2 then { acc with bad := true }
+  else
+    let body := (step.drop 1).toString.splitOn ";"
+    if step.startsWith "L" then
+      match histLoad kind body with
+      | none => { acc with bad := true }
+      | some (ans, newc) =>
+        let v := if impl == ans then "ok"
+          else if impl.startsWith "PANIC" then "FAIL:loader-panic"
+          else if ans == "err" then "FAIL:reload-accepts-invalid" else "FAIL:reload-rejects-valid"
+        { acc with cur := (match newc with | some c => some c | none => acc.cur), models := acc.models ++ [ans],
+                   verdict := if acc.verdict == "ok" then v else acc.verdict }
+    else if step.startsWith "Q" then
+      match histReqFields kind acc.cur body with
+      | none => { acc with bad := true }
+      | some fields =>
+        let a := runKind kind fields impl
+        if a.model == "bad-op" || a.model.startsWith "err:" then { acc with bad := true }
+        else { acc with models := acc.models ++ [a.model], nt := acc.nt || a.tags.contains "nt",
+                        verdict := if acc.verdict == "ok" && a.verdict != "skip" then a.verdict else acc.verdict }
+    else { acc with bad := true }
+
+def runHist (f : List String) (impl : String) : Ans :=
+  match f with
+  | [kind, steps] =>
+    let ss := steps.splitOn "#"
+    let impls := impl.splitOn ","
+    -- answers of the implementation, step by step (a missing one is judged as "")
+    let acc := (ss.zip (impls ++ List.replicate ss.length "")).foldl (fun a si => histStep kind a si.1 si.2) {}
+    if acc.bad then bad
+    else
+      let m := ",".intercalate acc.models
+      { model := m,
+        verdict := if impls.length != ss.length && !impl.startsWith "PANIC" then "FAIL:history-shape" else acc.verdict,
+        tags := ["hs", "hs-" ++ kind] ++ (if acc.nt then ["nt"] else []) }
+  | _ => bad
+
 def run (op impl : String) : Ans :=
   -- spellings that may coincide with the original for a particular checksum / token are refused by exec
   if impl == "bad-op" && (containsSub op "=mstd!" || containsSub op "=mcase" || containsSub op ".cpad:") then bad
@@ -870,6 +1025,7 @@ def run (op impl : String) : Ans :=
     else if kind == "bg" then runBlockGlobal f impl
     else if kind == "br" then runBlockReq f impl
     else if kind == "rl" then runReload f impl
+    else if kind == "hs" then runHist f impl
     else if kind == "lu" then runLoadUser f impl
     else if kind == "ls" then runLoadSlink f impl
     else if kind == "lb" then runLoadBlock f impl
